@@ -12,7 +12,9 @@
 //!   * FrontierModel   : edges in `forbid` and turns in `fturn` are refused, edges in `ferr` fail,
 //!   * TerminationModel: `term` (Unlimited = IterationsLimit{u64::MAX}).
 //! NOTE (measured, mirrored by the model): every non-first edge of a path carries access cost 1e-10
-//! (CostModel::access_cost clamps the zero delta of NoAccess) and traversal cost `total - 1e-10`.
+//! (CostModel::access_cost clamps the zero delta of NoAccess) and traversal cost `total - 1e-10`; the label
+//! increment is EdgeTraversal::total_cost() = enforce_strictly_positive(access + traversal) (/repo 693929c),
+//! `SR.pos` = the model's `cfloor`.  A source vertex outside the graph is err:graph (/repo e7c3cbc).
 //!
 //! Public API
 //!   types      World, Term, Query, Alg, Dir, Orient, Outcome, Branch, Hop, NumKind, CostFamily, HKind
